@@ -27,6 +27,7 @@ GENERATORS = {
     "Materialize_gen": "translator.gen_materialize",
     "Required_gen": "translator.gen_required",
     "Effects_gen": "translator.gen_effects",
+    "Small_gen": "translator.gen_small",
 }
 
 
